@@ -39,6 +39,14 @@ func (e *Engine) registerModels() {
 			continue
 		}
 		callee, model := strings.TrimSpace(line[:i]), line[i+1:]
+		if group != "" && model == "-" {
+			// "@group <callee> -": within this group the callee is executed from its real body
+			if e.groupSubst[group] == nil {
+				e.groupSubst[group] = map[string]*ssa.Function{}
+			}
+			e.groupSubst[group][callee] = nil
+			continue
+		}
 		if group != "" {
 			fn := mp.Func(model)
 			if fn == nil {
